@@ -7,6 +7,12 @@ ADDITIONAL REQUIREMENT FOR THIS ROUND (harder mutants wanted):
   - Mutant A must be STATE- or HISTORY-dependent: it must only manifest after a particular sequence of earlier calls / earlier files on disk / earlier configuration of module-level or object state in the same process (or across processes through files), or under a particular ordering of concurrent work - a single call in a fresh process must still satisfy the property. Typical vehicles: a memo/cache with an incomplete key, a reused buffer, a module-level default that gets mutated, a lazily initialised global, a stale file, a result object that is shared instead of copied.
   - Mutant B must depend on an UNUSUAL BUT LEGITIMATE CLASS OF INPUTS that typical tests do not contain (think about dtypes, containers (tuple vs list vs ndarray), negative or zero or very large/small magnitudes, values exactly on a branch boundary, odd/prime sizes, non-contiguous or read-only arrays, descending or duplicated entries, unusual-but-valid option combinations), preferably via TWO cooperating code sites that each look fine alone.
   - Avoid the most obvious single-token edits in the most central formula; prefer changes in guards, defaults, index/slice arithmetic, dtype handling, caching and bookkeeping code.
+""","w4":"""
+ADDITIONAL REQUIREMENT FOR THIS ROUND (harder, DIFFERENT mutants wanted):
+  - Earlier rounds already produced many mutants of the following kinds; do NOT produce these again: a memo/cache with an incomplete key; integer-dtype truncation through zeros_like / empty_like / np.array(int input); fftshift vs ifftshift on odd sizes; shifting the footprint by the requested halo instead of the padded whole cells; sorting / un-sorting the output levels; `x or default` on a value that may be zero; results keyed by array identity; tower names sorted alphabetically; as_completed instead of ordered collection.
+  - Mutant A must manifest only through an INTERACTION: between two different public functions / modules / drivers (state, files, settings or objects that one leaves behind and another consumes), between parent and worker processes (something inherited or not inherited across fork, per-worker state, worker count, strategy), between an object and its second use, or between a run and what the caller legitimately does with the returned objects. A single call of one function in a fresh process must still satisfy the property.
+  - Mutant B must depend on a BOUNDARY or DEGENERATE class of legitimate inputs: values exactly on a branch boundary or symmetry point (equal, coincident, aligned, exact multiple, exactly zero wind component, neutral stratification, measurement point exactly on the domain edge), degenerate shapes (a single row or column, one output level given as a one-element list, the top level, one tower, one time step), extreme but valid magnitudes, or an option combination nobody tests together. Preferably via two cooperating code sites.
+  - Prefer changes in guards, comparisons (< vs <=), index/slice arithmetic, loop bounds, default handling, bookkeeping, (de)serialisation and process/worker plumbing over edits of the central formulas.
 """}
 p=props[pid]
 wt="/tmp/wt/%s%s"%(pid,wave)
